@@ -177,7 +177,7 @@ def feed(inst, fn, chunk):
     return '[' + ';'.join(inst.obs) + '] %d' % compat.unconsumed(inst.unpacker)
 
 
-def gen_stream(rng, tier):
+def gen_stream(rng, tier, want_parts=False):
     parts = []
     n = rng.randint(1, 7)
     for _ in range(n):
@@ -196,10 +196,21 @@ def gen_stream(rng, tier):
             # mutated frames: truncated bodies, bad utf-8, wrong inner lengths
             parts.append(rng.choice([enc(3, b''), enc(3, b'\x05ab'), enc(1, b''), enc(0, b'\xff\xfe'), enc(3, b'\x01\xc3\x01c'),
                                      enc(4, b'\x01a\xff'), enc(1, b'\x09ab'), enc(2, b'\x00'), enc(5, b'')]))
-        elif r < 0.95:
+        elif r < 0.9:
             parts.append(struct.pack('!iB', rng.choice(lattice_lengths(3)), rng.choice([0, 1, 2, 3, 4, 5, 6, 9, 255])) + rand_bytes(rng, rng.randint(0, 8)))
+        elif r < 0.96:
+            # COMPLETE frames at and just above the small per-opcode limits (OP_INFO / OP_AUTH: 281 bytes), and a
+            # complete frame with an undefined opcode: the body is there, only the header is illegal
+            total = rng.choice([280, 281, 282, 283, 300, 600])
+            op = rng.choice([1, 1, 2, 2, 6, 9])
+            name = b'n' * rng.choice([0, 5, 255])
+            body = bytes([len(name)]) + name
+            body = body + rand_bytes(rng, max(0, total - 5 - len(body)))
+            parts.append(enc(op, body[:max(0, total - 5)]))
         else:
             parts.append(rand_bytes(rng, rng.randint(1, 20)))
+    if want_parts:
+        return parts
     return b''.join(parts)
 
 
@@ -238,9 +249,18 @@ def run(tier, seed, drv):
     for k in range(n):
         ident = rand_text(rng, rng.choice([5, 5, 255, 0]))
         secret = rand_text(rng, 30)
-        stream = gen_stream(rng, tier)
-        ncut = rng.choice([0, 0, 1, 2, 5, len(stream)])
-        cuts = sorted(set(rng.randint(1, len(stream) - 1) for _ in range(min(ncut, max(0, len(stream) - 1))))) if len(stream) > 1 else []
+        parts = gen_stream(rng, tier, want_parts=True)
+        stream = b''.join(parts)
+        if rng.random() < 0.3:
+            # one generated part per read (a frame alone in its chunk), sometimes with the next part's first bytes
+            ends, pos = [], 0
+            for pt in parts[:-1]:
+                pos += len(pt)
+                ends.append(pos + (rng.choice([0, 0, 0, 1, 5]) if pos + 5 < len(stream) else 0))
+            cuts = sorted(set(e for e in ends if 0 < e < len(stream)))
+        else:
+            ncut = rng.choice([0, 0, 1, 2, 5, len(stream)])
+            cuts = sorted(set(rng.randint(1, len(stream) - 1) for _ in range(min(ncut, max(0, len(stream) - 1))))) if len(stream) > 1 else []
         chunks = cut(stream, cuts)
         script = {'ident': ident, 'secret': secret, 'chunks': [hexin(c) for c in chunks]}
         run_case(res, drv, ident, secret, chunks, script)
